@@ -85,6 +85,8 @@ def _worker_batch(prop_name, seed, indices, tier, options):
     stats = new_stats()
     violations = []
     logs = {}
+    findings = load_known_findings()
+    known_examples = set()
     t0 = time.time()
     for index in indices:
         faulthandler.dump_traceback_later(options.get('run_wall_cap', 120), exit=True)
@@ -104,6 +106,13 @@ def _worker_batch(prop_name, seed, indices, tier, options):
             print(f'slow run {prop_name} seed={seed} index={index}: {dt:.1f}s', file=sys.stderr)
         logs[index] = result.get('log_digest')
         for v in result['violations']:
+            v.setdefault('property', prop_name)
+            known = match_known(v, findings)
+            if known is not None:
+                bump(stats, 'known:' + known['id'])
+                if known['id'] in known_examples:
+                    continue
+                known_examples.add(known['id'])
             if len(violations) < 20:
                 violations.append({'index': index, 'violation': v, 'spec': spec})
         if options.get('stop_after') and time.time() - t0 > options['stop_after']:
@@ -119,6 +128,7 @@ def run_search(prop_name, seed, tier, n_runs, jobs, options, wall_budget=None):
     violations = []
     logs = {}
     errors = []
+    findings_main = load_known_findings()
     chunk = max(1, min(options.get('chunk', 8), (n_runs + jobs - 1) // jobs))
     batches = [list(range(i, min(i + chunk, n_runs))) for i in range(0, n_runs, chunk)]
     t0 = time.time()
@@ -148,6 +158,8 @@ def run_search(prop_name, seed, tier, n_runs, jobs, options, wall_budget=None):
                 b, started = pending.pop(fut)
                 try:
                     res = fut.result()
+                except concurrent.futures.CancelledError:
+                    continue
                 except concurrent.futures.process.BrokenProcessPool:
                     errors.append(f'worker process died while executing runs {b[0]}..{b[-1]}')
                     return stats, violations, logs, errors
@@ -163,7 +175,7 @@ def run_search(prop_name, seed, tier, n_runs, jobs, options, wall_budget=None):
                     errors.append(f'runs {b[0]}..{b[-1]} exceeded the wall cap of {per_future_timeout}s')
                     pending.pop(fut)
                     fut.cancel()
-            if len(violations) >= options.get('max_violations', 40):
+            if len([x for x in violations if match_known(x['violation'], findings_main) is None]) >= options.get('max_violations', 40):
                 for fut in list(pending):
                     fut.cancel()
                 # let running futures finish
